@@ -315,10 +315,14 @@ def apply_dev(frame, dev):
         elif kind == 'droprow':
             for c in f:
                 del c[2][dev[1]]
+        elif kind == 'revrows':
+            for c in f:
+                c[2].reverse()
         elif kind == 'addrow':
             pos = dev[1]
-            for c in f:
-                v = filler(c, dev[2])
+            nulls = dev[3] if len(dev) > 3 else []
+            for ci, c in enumerate(f):
+                v = None if ci in nulls else filler(c, dev[2])
                 if pos == 'end':
                     c[2].append(v)
                 else:
@@ -375,6 +379,8 @@ def structural_devs(frame, extra_labels=('int64',)):
         yield ['droprow', r]
     yield ['addrow', 'end', 0]
     yield ['addrow', 'front', 1]
+    if n >= 2:
+        yield ['revrows']
     for lab in extra_labels:
         yield ['extracol', 'end', lab]
         yield ['extracol', 'front', lab]
@@ -411,6 +417,81 @@ def relevant_dims(dev):
         return ['co', 'cd', 'ct']
     if k in ('droprow', 'addrow'):
         return ['cond', 'cd', 'sort']
+    if k == 'revrows':
+        return ['sort', 'cd', 'cond']
     if k == 'extracol':
         return ['cx', 'co', 'cd', 'ct']
     return DIMS
+
+
+# ------------------------------------------------- file-layer frames (L1-xfiles)
+
+def csv_triple():
+    """Three columns that survive a CSV round trip unchanged."""
+    return [mk('a', 'int64', [1, 3]), mk('b', 'float64', [2.0, None]),
+            mk('c', 'str', ['a', 'B1'])]
+
+
+def structural_plus_cells(frame):
+    """Structural deviations + one cell deviation per column: together they
+    make every per-kind column selection observable."""
+    for d in structural_devs(frame):
+        yield d
+    for ci, col in enumerate(frame):
+        if col[1] not in FAM:
+            continue
+        for new in alphabet(col[1], 3):
+            if new is not None and new != col[2][0]:
+                yield ['cell', ci, 0, new]
+                break
+
+
+# ------------------------------------------------------- histories (E3 layer)
+#
+# One reference frame and eight actual frames; every option of the menu flips
+# the verdict of at least one pair.  In history ops the precision is OMITTED
+# (None) unless the op names one.
+
+HIST_REF = [mk('a', 'float64', [2.0, -1.25]), mk('b', 'int64', [1, 3]),
+            mk('c', 'str', ['a', 'B1'])]
+HIST_PAIRS = {
+    'copy': [],
+    'd4e-3': [['cell', 0, 0, ['delta', 0.004]]],
+    'd1e-8': [['cell', 0, 0, ['delta', 1e-08]]],
+    'dtype': [['dtype', 1, 'float64']],
+    'swap': [['swap', 1, 2]],
+    'extra': [['extracol', 'end', 'int64']],
+    'rev': [['revrows']],
+    'nullrow': [['addrow', 'front', 1, [0]]],
+}
+HIST_OPTION_OPS = [
+    ('copy', {}),
+    ('d4e-3', {}), ('d4e-3', {'prec': 2}), ('d4e-3', {'prec': 0}),
+    ('d4e-3', {'prec': 10}), ('d4e-3', {'cd': 'fn'}),
+    ('d1e-8', {}), ('d1e-8', {'prec': 10}), ('d1e-8', {'prec': 2}),
+    ('dtype', {}), ('dtype', {'tm': 'permissive'}), ('dtype', {'tm': 'medium'}),
+    ('dtype', {'ct': 'false'}), ('dtype', {'ct': 'list'}),
+    ('swap', {}), ('swap', {'co': 'false'}), ('swap', {'co': 'list'}),
+    ('extra', {}), ('extra', {'cx': 'false'}), ('extra', {'cx': 'list'}),
+    ('rev', {}), ('rev', {'sort': 'first'}), ('rev', {'cd': 'false'}),
+    ('nullrow', {}), ('nullrow', {'cond': 'notnull'}),
+]
+HIST_DEFAULT = dict(DEFAULT_OPTS, prec=None)
+
+
+def hist_menu(which):
+    """[entry, pair name, option point] for every op of the menu."""
+    out = []
+    entries = ('mem', 'chk', 'disk', 'pq') if which == 'full' else \
+        ('mem', 'disk')
+    for e in entries:
+        for (pair, diff) in HIST_OPTION_OPS:
+            if 'cx' in diff and e != 'chk':
+                continue
+            if 'tm' in diff and e == 'disk':
+                continue
+            if e == 'pq' and not (pair in ('d4e-3', 'd1e-8') and
+                                  set(diff) <= set(('prec',))):
+                continue
+            out.append([e, pair, dict(HIST_DEFAULT, **diff)])
+    return out
